@@ -9,7 +9,7 @@ if ! git -C /repo diff --quiet || ! git -C /repo diff --cached --quiet; then
   echo "mutant: /repo working tree is not clean"; exit 2
 fi
 SCR=$(mktemp -d /tmp/verif-mut.XXXXXX)
-cleanup() { git -C /repo checkout -- . ; git -C /repo clean -fdq -- src 2>/dev/null; rm -rf "$SCR"; }
+cleanup() { git -C /repo checkout -- . && git -C /repo clean -fdq -- src ; git -C /repo clean -fdq -- src 2>/dev/null; rm -rf "$SCR"; }
 trap cleanup EXIT
 if ! git -C /repo apply "$PATCH"; then echo "mutant: patch does not apply"; exit 2; fi
 if [ "${SKIP_TESTS:-0}" != "1" ]; then
